@@ -737,6 +737,36 @@ def rule_limits(facts, rep):
                 ok_digit = sub.get("k") == "bin" and sub["op"] == "Sub" and hir.is_local(sub["l"], "byte") and hir.lit_val(sub["r"]) == 0x30
     rep.check(ok_semi, "limits", pa["path"], "Param:';'→push", f"{[x[0] for x in got.get('semi', [])]}", loc(pa, body))
     rep.check(ok_colon, "limits", pa["path"], "Param:':'→extend", f"{[x[0] for x in got.get('colon', [])]}", loc(pa, body))
+    # the digit case by symbolic evaluation of the arm: with byte neither ';' nor ':' and room in the list, param becomes
+    # param.saturating_mul(10).saturating_add((byte - b'0') as u16) — in two statements or one
+    import abseval
+    digit_results = []
+
+    def run(choices):
+        ev = abseval.Evaluator(facts, cp.CRATE, {
+            "anstyle_parse::params::Params::is_full": lambda a: ("bool", ev.oracle(("params", "full"))),
+            "anstyle_parse::params::Params::push": lambda a: ("unit",), "anstyle_parse::params::Params::extend": lambda a: ("unit",),
+            "core::num::<impl u16>::saturating_mul": lambda a: ("smul", a[0], a[1]),
+            "core::num::<impl u16>::saturating_add": lambda a: ("sadd", a[0], a[1])})
+        ev.choices = choices
+        env = abseval.Env()
+        env["byte"] = ("sym", "b")
+        env["self.param"] = ("sym", "p")
+        env["self.ignoring"] = ("sym", "ign")
+        env["self.params"] = ("sym", "params")
+        try:
+            ev.ev(tbl["Param"]["body"] if "Param" in tbl else body, env)
+        except abseval.Return:
+            pass
+        return env["self.param"]
+    try:
+        for choices, fin in abseval.explore(run):
+            if choices.get(("params", "full")) is False and choices.get(("b", ("int", 59))) is False and choices.get(("b", ("int", 58))) is False:
+                digit_results.append(fin)
+        want_digit = ("sadd", ("smul", ("sym", "p"), ("int", 10)), ("bin", "Sub", ("sym", "b"), ("int", 48)))
+        ok_digit = bool(digit_results) and all(r == want_digit for r in digit_results)
+    except Unrecognised:
+        pass          # keep the structural verdict computed above
     rep.check(ok_digit and "?" not in got, "limits", pa["path"], "Param:digit→saturating",
               f"param = param.saturating_mul(10).saturating_add((byte - b'0') as u16) — values saturate at 65535; got "
               f"{[x[0] for x in dig]}", loc(pa, body))
